@@ -341,3 +341,6 @@ def run(ctx: Ctx) -> None:
     rep.rule("C15.R12", "as C16.R3: a run that stops before the path commit writes its blobs under the internal directory and nothing under the data directory: set_store('local') hands "
                         "each configured directory to the parameter of its name")
     decode_set_store_local(ctx, _S15.LocalView(ctx), "C15.R12")
+    if ctx.report.prop == "C15":
+        from .common import share_rules as _share8
+        _share8(ctx, "C12", "C15.R13", ['C12.R1'], 'a blob stored by a run that stopped before the path commit is fetched through the object cache by the later full run: the cache inserts it under a None test only (the truth value of a table or array blob raises)')
